@@ -24,3 +24,29 @@ package status
 //@   prop C10 C24
 //@   nopanic
 //@   ensures result == (s.Code() == codes.InvalidArgument || s.Code() == codes.NotFound || s.Code() == codes.AlreadyExists || s.Code() == codes.FailedPrecondition || s.Code() == codes.Aborted || s.Code() == codes.OutOfRange || s.Code() == codes.DataLoss)
+
+// ---- C10: building the client-side status from the trailers ----------------------------------
+//
+// New keeps code and message; NewWithProto keeps the code and message of the
+// grpc-status / grpc-message headers unless exactly one well-formed
+// grpc-status-details-bin value with the same code is present (then that proto
+// is the status) or its code differs (then INTERNAL).
+
+//@ func (*Status).Message
+//@   prop C10
+//@   inline
+//@   nopanic
+//@   ensures implies(s == nil || s.s == nil, result == "")
+//@   ensures implies(s != nil && s.s != nil, result == s.s.Message)
+
+//@ func New
+//@   prop C10
+//@   nopanic
+//@   ensures result != nil && result.s != nil && codes.Code(result.s.Code) == c && result.s.Message == msg && fresh(result)
+
+//@ func NewWithProto
+//@   prop C10
+//@   assert at return 1 len(statusProto) != 1 && result0 != nil && result0.s != nil && result0.s.Code == int32(code) && result0.s.Message == message
+//@   assert at return 2 len(statusProto) == 1 && result0 != nil && result0.s != nil && result0.s.Code == int32(code) && result0.s.Message == message
+//@   assert at return 3 len(statusProto) == 1 && result0 != nil && result0.s == st && st.Code == int32(code)
+//@   assert at return 4 len(statusProto) == 1 && result0 != nil && result0.s != nil && result0.s.Code == int32(codes.Internal)
